@@ -3,127 +3,66 @@
 package frr
 
 // C14 harness: every scenario TLC printed from spec/FRRMC.tla (a set of sessions with their
-// advertisements + several creation orders) is played against the real sessionManager
-// (NewSession / Set / Close / SyncBFDProfiles -> createConfig -> reloadEvent), the configuration
-// that reached the reload channel last is rendered with the real templateConfig, and the text is
-// tokenized (frrcfg_tokenizer.go).  One observation per (scenario, order).  No oracle here.
+// advertisements in several creation orders, or a history observed after every operation) is played
+// against the real sessionManager (NewSession / Set / Close / SyncBFDProfiles / SyncExtraInfo ->
+// createConfig -> reloadEvent); the configuration that reached the reload channel last is rendered
+// with the real templateConfig and the text is tokenized (frrcfg_tokenizer.go).  One observation
+// per look.  No oracle here.
 
 import (
 	"crypto/sha256"
 	"encoding/hex"
-	"fmt"
 	"os"
 	"sync"
 	"testing"
 
 	"github.com/go-kit/log"
-	"go.universe.tf/metallb/internal/bgp"
-	metallbconfig "go.universe.tf/metallb/internal/config"
 	"go.universe.tf/metallb/internal/logging"
 	"go.universe.tf/metallb/internal/verifkit"
 )
 
 type vFrrObs struct {
-	ID       string                `json:"id"`
-	Ord      int                   `json:"ord"`
-	Mode     string                `json:"mode"`
-	Node     string                `json:"node"`
-	Same     int                   `json:"same"` // > 0: the text is byte-identical to that of order Same (sessions, prog omitted)
-	Sessions []verifkit.FrrSession `json:"sessions,omitempty"`
-	Created  []bool                `json:"created"` // per session: NewSession succeeded and not closed
-	Errs     []string              `json:"errs"`
-	Sha      string                `json:"sha"`
-	Len      int                   `json:"len"`
-	Prog     *vFrrProgram          `json:"prog,omitempty"`
-	Text     string                `json:"text,omitempty"`
+	ID        string                `json:"id"`
+	Ord       int                   `json:"ord"`
+	Step      int                   `json:"step"`
+	Seq       int                   `json:"seq"`
+	Same      int                   `json:"same"` // > 0: text and expected sessions are identical to those of observation Seq = Same of this scenario (sessions, prog omitted)
+	Mode      string                `json:"mode"`
+	Node      string                `json:"node"`
+	Sessions  []verifkit.FrrSession `json:"sessions,omitempty"`
+	Created   []bool                `json:"created"` // per session: NewSession succeeded and not closed
+	Errs      []string              `json:"errs"`
+	Refusals  []string              `json:"refusals"`
+	RefusedOK bool                  `json:"refusedok"`
+	Sha       string                `json:"sha"`
+	Len       int                   `json:"len"`
+	Prog      *vFrrProgram          `json:"prog,omitempty"`
+	Text      string                `json:"text,omitempty"`
 }
 
 func vFrrHostname() (string, error) { return "verifhost", nil }
 
-// vFrrPlay runs one creation order and returns the rendered text.
-func vFrrPlay(sc verifkit.FrrScenario, ops []verifkit.FrrOp) (string, []string, []bool) {
-	errs := []string{}
-	// the fields NewSessionManager fills; the reload channel is drained here instead of by the
-	// debouncer (no timers, no file, no reloader): the last event is what would be written
-	sm := &sessionManager{
-		sessions:     map[string]*session{},
-		bfdProfiles:  []BFDProfile{},
-		reloadConfig: make(chan reloadEvent),
-		logLevel:     logLevelToFRR(logging.LevelInfo),
-	}
-	var last *frrConfig
-	var wg sync.WaitGroup
-	wg.Add(1)
+// vFrrDrain stands where the debouncer stands in production: it receives the reload events (no
+// timers, no file, no reloader) and remembers the last configuration, i.e. what would be written.
+type vFrrDrain struct {
+	mu   sync.Mutex
+	last *frrConfig
+	done chan struct{}
+}
+
+func vFrrStartDrain(ch chan reloadEvent) *vFrrDrain {
+	d := &vFrrDrain{done: make(chan struct{})}
 	go func() {
-		defer wg.Done()
-		for ev := range sm.reloadConfig {
+		defer close(d.done)
+		for ev := range ch {
 			if !ev.useOld {
-				last = ev.config
+				d.mu.Lock()
+				d.last = ev.config
+				d.mu.Unlock()
 			}
 		}
 	}()
-	l := log.NewNopLogger()
-	profiles := map[string]*metallbconfig.BFDProfile{}
-	for _, s := range sc.Sessions {
-		if s.Bfd != "" {
-			profiles[s.Bfd] = &metallbconfig.BFDProfile{Name: s.Bfd}
-		}
-	}
-	if len(profiles) > 0 {
-		if err := sm.SyncBFDProfiles(profiles); err != nil {
-			errs = append(errs, "bfd: "+err.Error())
-		}
-	}
-	live := map[int]bgp.Session{}
-	for _, op := range ops {
-		s := sc.Sessions[op.S-1]
-		switch op.Op {
-		case "new":
-			sess, err := sm.NewSession(l, verifkit.FrrParams(s, sc.Node))
-			if err != nil {
-				errs = append(errs, fmt.Sprintf("new %s: %v", s.K, err))
-				continue
-			}
-			live[op.S] = sess
-		case "set", "preset":
-			sess, ok := live[op.S]
-			if !ok {
-				errs = append(errs, fmt.Sprintf("%s %s: no session", op.Op, s.K))
-				continue
-			}
-			advs := verifkit.FrrAdvs(s.Advs, op.Advs)
-			if op.Op == "preset" {
-				advs = verifkit.FrrAdvs(s.Pre, verifkit.FrrAllIdx(len(s.Pre)))
-			}
-			if err := sess.Set(advs...); err != nil {
-				errs = append(errs, fmt.Sprintf("%s %s: %v", op.Op, s.K, err))
-			}
-		case "close":
-			if sess, ok := live[op.S]; ok {
-				if err := sess.Close(); err != nil {
-					errs = append(errs, fmt.Sprintf("close %s: %v", s.K, err))
-				}
-				delete(live, op.S)
-			}
-		default:
-			panic("unknown op " + op.Op)
-		}
-	}
-	close(sm.reloadConfig)
-	wg.Wait()
-	created := []bool{}
-	for i := range sc.Sessions {
-		_, ok := live[i+1]
-		created = append(created, ok)
-	}
-	if last == nil {
-		return "", append(errs, "no configuration reached the reload channel"), created
-	}
-	text, err := templateConfig(last)
-	if err != nil {
-		errs = append(errs, "template: "+err.Error())
-	}
-	return text, errs, created
+	return d
 }
 
 func TestVerifFrrcfg(t *testing.T) {
@@ -133,23 +72,53 @@ func TestVerifFrrcfg(t *testing.T) {
 	osHostname = vFrrHostname
 	os.Unsetenv("FRR_LOGGING_LEVEL")
 	withText := verifkit.FrrWithText()
+	l := log.NewNopLogger()
 	verifkit.FrrForEach(scs, out, func(sc verifkit.FrrScenario, b *verifkit.Block) {
 		first := map[string]int{}
+		seq := 0
 		for k, ops := range sc.Orders {
-			text, errs, created := vFrrPlay(sc, ops)
-			sum := sha256.Sum256([]byte(text))
-			o := vFrrObs{ID: sc.ID, Ord: k + 1, Mode: "frr", Node: sc.Node, Created: created, Errs: errs,
-				Sha: hex.EncodeToString(sum[:]), Len: len(text)}
-			if f, ok := first[text]; ok {
-				o.Same = f // compression only: the driver copies sessions and program from that line
-			} else {
-				first[text] = k + 1
-				o.Sessions, o.Prog = sc.Sessions, vFrrTokenize(text)
-				if withText {
-					o.Text = text
-				}
+			// the fields NewSessionManager fills
+			sm := &sessionManager{
+				sessions:     map[string]*session{},
+				bfdProfiles:  []BFDProfile{},
+				reloadConfig: make(chan reloadEvent),
+				logLevel:     logLevelToFRR(logging.LevelInfo),
 			}
-			b.Add(o)
+			drain := vFrrStartDrain(sm.reloadConfig)
+			verifkit.FrrRun(sm, l, sc, ops, func(lk verifkit.FrrLook) {
+				// barrier: once this (ignored) event is taken, every earlier event has been stored
+				sm.reloadConfig <- reloadEvent{useOld: true}
+				drain.mu.Lock()
+				last := drain.last
+				drain.mu.Unlock()
+				seq++
+				o := vFrrObs{ID: sc.ID, Ord: k + 1, Step: lk.Step, Seq: seq, Mode: "frr", Node: sc.Node, Created: lk.Created,
+					Errs: lk.Errs, Refusals: lk.Refusals, RefusedOK: lk.RefusedOK}
+				text := ""
+				if last == nil {
+					o.Errs = append(o.Errs, "no configuration reached the reload channel")
+				} else {
+					var err error
+					if text, err = templateConfig(last); err != nil {
+						o.Errs = append(o.Errs, "template: "+err.Error())
+					}
+				}
+				sum := sha256.Sum256([]byte(text))
+				o.Sha, o.Len = hex.EncodeToString(sum[:]), len(text)
+				key := verifkit.FrrSameKey(text, lk.Sessions)
+				if f, ok := first[key]; ok {
+					o.Same = f // compression only: the driver copies sessions and program from that observation
+				} else {
+					first[key] = seq
+					o.Sessions, o.Prog = lk.Sessions, vFrrTokenize(text)
+					if withText {
+						o.Text = text
+					}
+				}
+				b.Add(o)
+			})
+			close(sm.reloadConfig)
+			<-drain.done
 		}
 	})
 	t.Logf("verif: %d scenarios, %d observations", len(scs), out.N)
